@@ -59,6 +59,11 @@ def main(prop=PROP, doc=__doc__):
             chk.known_finding("F1", "diff(%r, %r) drops the JSON type change: %s" % (
                 [w.violations[0]["values"]["a0"]], [w.violations[0]["values"]["b0"]],
                 w.violations[0]["label"]))
+    if True:
+        from . import xh_cross
+        xh_cross.run(chk, ["roundtrip_bruteforce", "roundtrip_generic"], prop)
+        chk.assumptions.append("CrossHair (E1) conditions are a cross-check by a second engine on List[int] inputs with symbolic "
+                               "lengths <= 3; only 'Confirmed over all paths' counts as agreement; its timeouts do not affect the verdict")
     return chk.finish()
 
 
